@@ -51,8 +51,9 @@ CHECKS.update({
             "Nonce/key freshness of crypto/rand is an assumption; the theorem is that the code asks for a fresh key and nonce every time.", "6/C03"),
  "C04": env("Boundary-clock histories: no record under an expired IK, no IK created under an expired SK (when no fault is injected), IK dropped within one interval of its SK's expiry. PROVED over all histories "
             "(clause 1): an unfaulted Encrypt that returns a record wrote it under an intermediate key that is not expired at the time of the operation, however the key was obtained - cache hit, stale reload, "
-            "metastore load, creation, duplicate fallback (Envelope/Expiry.v; policy sanity ExpireKeyAfter >= CreateDatePrecision + 1 s).",
-            "Clauses 2-3 (system-key side) are refuted on the faithful model by known findings C04-IK (decrypt-path refresh) and C04-DUP (duplicate fallback), both with computed witnesses; outside those "
+            "metastore load, creation, duplicate fallback - and (clause 2) every row an unfaulted Encrypt adds names a parent that is not expired at that time, i.e. no intermediate key is created under an expired system key "
+            "(Envelope/Expiry.v 970 lines; policy sanity ExpireKeyAfter >= CreateDatePrecision + 1 s).",
+            "Clause 3 (an IK whose SK expired stops being used within one interval) is refuted on the faithful model by known findings C04-IK (decrypt-path refresh) and C04-DUP (unvalidated adoption in the fallbacks), both with computed witnesses; outside those "
             "signatures they are decided by the correspondence and the monitor.", "6/C04"),
  "C05": env("Revocation of latest/older IK/SK at boundary offsets: bound of one interval (IK) / two intervals (parent SK) when a later stamp is creatable.", "Known finding C05-IK.", "6/C05"),
  "C07": env("Every mutation kind (bit flips, truncations, splices, nil fields, foreign parents) on genuine records plus corrupted metastore rows: decrypt returns the original payload of the Data it carries or an error, never other bytes, never panics.",
